@@ -169,6 +169,10 @@ class AbstractWav(ABC):
         startTime, endTime = utils.getInterval(start, step, self.duration, reverse)
         samples = self.getSamples(startTime, endTime)
 
+        # The samples start at the sample nearest to startTime; measure
+        # from there, so that the returned time falls on a sample
+        startTime = round(startTime * self.frameRate) / self.frameRate
+
         return _findNextZeroCrossing(startTime, samples, self.frameRate, reverse)
 
     @property
